@@ -1,7 +1,7 @@
 ------------------------------- MODULE Hopcroft -------------------------------
 (* pyformlang's DeterministicFiniteAutomaton._get_partition as a state machine.
    Trash state None is 0.  Nondeterminism: the (fixed) iteration order of the symbol set. *)
-EXTENDS Naturals, Sequences, FiniteSets, SequencesExt, TLC
+EXTENDS HopcroftOps
 CONSTANTS N, Sym
 Q == 1..N
 QT == 0..N
@@ -12,39 +12,15 @@ VARIABLES delta, finals, symorder,   \* the DFA (delta total into QT; 0 = no tra
           pc
 vars == <<delta, finals, symorder, part, plist, incl, pc>>
 D(q, a) == IF q = 0 THEN 0 ELSE delta[<<q, a>>]
+DL == [x \in QT \X Sym |-> D(x[1], x[2])]
 Init == /\ delta \in [Q \X Sym -> QT]
         /\ finals \in (SUBSET Q) \ {{}}
         /\ symorder \in SetToSeqs(Sym)
-        /\ part = << finals, (Q \ finals) \cup {0} >>
-        /\ LET toadd == IF Cardinality((Q \ finals) \cup {0}) < Cardinality(finals) THEN 2 ELSE 1
-           IN /\ plist = [i \in DOMAIN symorder |-> <<toadd, symorder[i]>>]
-              /\ incl = { <<toadd, a>> : a \in Sym }
+        /\ LET s0 == InitState(QT, symorder, finals) IN part = s0[1] /\ plist = s0[2] /\ incl = s0[3]
         /\ pc = "loop"
 ClassOf(P, q) == CHOOSE i \in DOMAIN P : q \in P[i]
-\* process the inserts for one split (valid class v, new class nw) over all symbols in set order
-RECURSIVE Inserts(_,_,_,_,_,_)
-Inserts(P, pl, inc, v, nw, k) ==
-  IF k > Len(symorder) THEN <<pl, inc>>
-  ELSE LET a == symorder[k]
-           tgt == IF <<v, a>> \in inc THEN nw
-                  ELSE IF Cardinality(P[v]) < Cardinality(P[nw]) THEN v ELSE nw
-       IN Inserts(P, Append(pl, <<tgt, a>>), inc \cup {<<tgt, a>>}, v, nw, k + 1)
-\* split all valid classes (ascending index), threading partition / list / inclusion
-RECURSIVE Splits(_,_,_,_,_)
-Splits(P, pl, inc, valid, inverse) ==
-  IF valid = {} THEN <<P, pl, inc>>
-  ELSE LET v == CHOOSE x \in valid : \A y \in valid : x <= y
-           moved == P[v] \cap inverse
-           P2 == Append([P EXCEPT ![v] = @ \ moved], moved)
-           nw == Len(P2)
-           r == Inserts(P2, pl, inc, v, nw, 1)
-       IN Splits(P2, r[1], r[2], valid \ {v}, inverse)
 Pop == /\ pc = "loop" /\ plist # <<>>
-       /\ LET top == Last(plist)
-              c == top[1]  a == top[2]
-              inverse == { q \in QT : D(q, a) \in part[c] }
-              valid == { i \in DOMAIN part : (part[i] \cap inverse # {}) /\ ~(part[i] \subseteq inverse) }
-              r == Splits(part, Front(plist), incl \ {top}, valid, inverse)
+       /\ LET r == PopResult(DL, QT, symorder, part, plist, incl)
           IN /\ part' = r[1] /\ plist' = r[2] /\ incl' = r[3]
        /\ UNCHANGED <<delta, finals, symorder, pc>>
 Finish == pc = "loop" /\ plist = <<>> /\ pc' = "done" /\ UNCHANGED <<delta, finals, symorder, part, plist, incl>>
